@@ -20,6 +20,7 @@ CONSTANTS
   Retargets = {FALSE}
   AlignOpts = {0}
   Aliases = {FALSE}
+  SharedRet = {FALSE}
   InsFns = {"none"}
   Emit = FALSE
 INVARIANT Inv_Completes
